@@ -149,7 +149,7 @@ def readonly_op(m: Machine, rng) -> str:
 def frozen_cases():
     for cls in zoo.ALL_CLASSES:
         try:
-            if cls in (zoo.Un,):
+            if cls in (zoo.Un, zoo.UnPlus):
                 n = cls(zoo.Leaf())
             elif cls is zoo.Bin:
                 n = cls(zoo.Leaf(), zoo.Leaf(v=1))
